@@ -56,6 +56,13 @@ const char *xv_set_name; int xv_set_type; const void *xv_set_value; size_t xv_se
 const char *xv_set_first_name;  /* name of write number 0 */
 long xv_get_calls; const char *xv_get_name; void *xv_get_value; size_t xv_get_cap; struct xcm_socket *xv_get_sock; int xv_get_rv; int xv_get_errno;
 int xv_get_type;                /* type the attribute tree reported */
+/* write number xv_j (prelude's ghost index, never assigned) of this call, as xcm_attr_set saw it */
+const char *xv_at_name; int xv_at_type; const void *xv_at_value; size_t xv_at_len; struct xcm_socket *xv_at_sock;
+/* the attribute map as xcm_attr_map_foreach presents it (stub in env/xcmcore_env.h): xv_map_n entries (never assigned, any number);
+ * entry number xv_j - <writes made before the iteration started> is recorded when the iteration gets there */
+long xv_map_n; const char *xv_map_name; int xv_map_type; const void *xv_map_value; size_t xv_map_len;
+_Bool xv_map_has_service;       /* never assigned: the map has an entry "xcm.service" */
+struct xcm_socket *xv_attrs_sock; int xv_attrs_rv;   /* last set_attrs: socket and result */
 struct xcm_socket *xv_created_sock; struct xcm_socket *xv_inited_sock, *xv_connected_sock, *xv_accepted_sock;
 _Bool xv_poll_failed;           /* a poll() call has failed (set by the poll stub of env/xcmcore_env.h, never cleared) */
 #endif
@@ -195,16 +202,22 @@ __CPROVER_ensures(XC_RV_OR_ERRNO && xv_inited_sock == s)
 /* connect/server/accept of a transport never sleep whatever the mode (enforced in units ux, btcp ...: suspected F20) */
 int xcm_tp_socket_connect(struct xcm_socket *s, const char *remote_addr)
 __CPROVER_requires(__CPROVER_r_ok(s, sizeof(struct xcm_socket)))
+/* PO[C11] xcm_tp_socket_connect.after_init_and_attributes (precondition: the attributes were applied, successfully, before connect proper) */
+__CPROVER_requires(xv_inited_sock == s && xv_attrs_sock == s && xv_attrs_rv == 0)
 __CPROVER_assigns(xv_errno, xv_connected_sock, xv_conn_dead, xv_updated, xv_upd_cond, xv_upd_sock)
 __CPROVER_ensures(XC_RV_OR_ERRNO && xv_connected_sock == s)
 ;
 int xcm_tp_socket_server(struct xcm_socket *s, const char *local_addr)
 __CPROVER_requires(__CPROVER_r_ok(s, sizeof(struct xcm_socket)))
+/* PO[C11] xcm_tp_socket_server.after_init_and_attributes */
+__CPROVER_requires(xv_inited_sock == s && xv_attrs_sock == s && xv_attrs_rv == 0)
 __CPROVER_assigns(xv_errno, xv_connected_sock, xv_updated, xv_upd_cond, xv_upd_sock)
 __CPROVER_ensures(XC_RV_OR_ERRNO && xv_connected_sock == s)
 ;
 int xcm_tp_socket_accept(struct xcm_socket *conn_s, struct xcm_socket *server_s)
 __CPROVER_requires(__CPROVER_r_ok(conn_s, sizeof(struct xcm_socket)) && __CPROVER_r_ok(server_s, sizeof(struct xcm_socket)))
+/* PO[C11] xcm_tp_socket_accept.after_init_and_attributes */
+__CPROVER_requires(xv_inited_sock == conn_s && xv_attrs_sock == conn_s && xv_attrs_rv == 0)
 __CPROVER_assigns(xv_errno, xv_accepted_sock, xv_updated, xv_upd_cond, xv_upd_sock)
 __CPROVER_ensures(XC_RV_OR_ERRNO && xv_accepted_sock == conn_s)
 ;
@@ -271,9 +284,15 @@ __CPROVER_assigns()
 __CPROVER_ensures(1)
 ;
 #define XC_CNT_OK(c) ((c) >= 0 && (c) < XC_CNT_MAX + XC_SLACK)
+/* write number xv_j (ghost index) is remembered */
+#define XC_AT_RECORD(name, type, value, len, s) (__CPROVER_old(xv_set_calls) == xv_j \
+        ? (xv_at_name == (name) && xv_at_type == (int)(type) && xv_at_value == (value) && xv_at_len == (len) && xv_at_sock == (s)) \
+        : (xv_at_name == __CPROVER_old(xv_at_name) && xv_at_type == __CPROVER_old(xv_at_type) && xv_at_value == __CPROVER_old(xv_at_value) && \
+           xv_at_len == __CPROVER_old(xv_at_len) && xv_at_sock == __CPROVER_old(xv_at_sock)))
 int attr_tree_set_value(struct attr_tree *tree, const char *path, enum xcm_attr_type type, const void *value, size_t len, void *log_ref)
 __CPROVER_requires(tree != NULL && XC_CNT_OK(xv_set_calls) && __CPROVER_rw_ok((struct xcm_socket *)log_ref, sizeof(struct xcm_socket)))
 __CPROVER_assigns(xv_errno, xv_set_calls, xv_set_failed, xv_set_name, xv_set_type, xv_set_value, xv_set_len, xv_set_sock, xv_set_rv, xv_set_first_name)
+__CPROVER_assigns(xv_at_name, xv_at_type, xv_at_value, xv_at_len, xv_at_sock)
 __CPROVER_assigns(((struct xcm_socket *)log_ref)->is_blocking, ((struct xcm_socket *)log_ref)->condition, xv_conn_dead, xv_updated, xv_upd_cond, xv_upd_sock)
 XC_MAY_BLOCK(xv_attrs_req_block)
 __CPROVER_ensures(XC_RV_OR_ERRNO && XC_DEAD_MONO)
@@ -281,6 +300,7 @@ __CPROVER_ensures(xv_set_calls == __CPROVER_old(xv_set_calls) + 1 && xv_set_name
                   xv_set_sock == (struct xcm_socket *)log_ref && xv_set_rv == __CPROVER_return_value)
 __CPROVER_ensures(xv_set_failed == (__CPROVER_old(xv_set_failed) || __CPROVER_return_value == -1))
 __CPROVER_ensures(xv_set_first_name == (__CPROVER_old(xv_set_calls) == 0 ? path : __CPROVER_old(xv_set_first_name)))
+__CPROVER_ensures(XC_AT_RECORD(path, type, value, len, (struct xcm_socket *)log_ref))
 ;
 int attr_tree_get_value(struct attr_tree *tree, const char *path, enum xcm_attr_type *type, void *value, size_t capacity, void *log_ref)
 __CPROVER_requires(tree != NULL && XC_CNT_OK(xv_get_calls) && __CPROVER_w_ok(type, sizeof(*type)))
@@ -329,10 +349,12 @@ __CPROVER_requires(1)
 __CPROVER_assigns()
 __CPROVER_ensures(1)
 ;
+#define XC_IS_SERVICE(n) ((n)[0] == 'x' && (n)[1] == 'c' && (n)[2] == 'm' && (n)[3] == '.' && (n)[4] == 's' && (n)[5] == 'e' && (n)[6] == 'r' && (n)[7] == 'v' && \
+                          (n)[8] == 'i' && (n)[9] == 'c' && (n)[10] == 'e' && (n)[11] == 0)
 bool xcm_attr_map_exists(const struct xcm_attr_map *attr_map, const char *attr_name)
 __CPROVER_requires(attr_map != NULL)
 __CPROVER_assigns()
-__CPROVER_ensures(1)
+__CPROVER_ensures(XC_IS_SERVICE(attr_name) ==> __CPROVER_return_value == xv_map_has_service)
 ;
 
 /* ================================================================================================================ */
@@ -415,6 +437,8 @@ __CPROVER_ensures((xv_bytestream && __CPROVER_return_value >= 0) ==> ((size_t)__
                   XC_TX_GREW(buf, __CPROVER_return_value)))
 /* PO[C02] xcm_send.failure_accepted_nothing: byte stream: rv -1 => no byte of this call's buffer was accepted */
 __CPROVER_ensures((xv_bytestream && __CPROVER_return_value == -1) ==> (xv_errno > 0 && XC_TX_SAME))
+/* PO[C03] xcm_send.blocking_success_is_flushed: a blocking send reports success only after the transport's finish said nothing is outstanding */
+__CPROVER_ensures((__CPROVER_old(conn_s->is_blocking) && __CPROVER_return_value >= 0) ==> (xv_fin_sock == conn_s && xv_fin_rv == 0))
 /* PO[C02] xcm_send.blocking_takes_everything */
 __CPROVER_ensures((xv_bytestream && __CPROVER_old(conn_s->is_blocking) && __CPROVER_return_value >= 0) ==> (size_t)__CPROVER_return_value == len)
 ;
@@ -516,20 +540,39 @@ __CPROVER_ensures(1)
  * is tied to the prophecy constant xv_mode_after_attrs: whatever set_attrs does, some value of the constant matches it, and
  * the jobs are proved for both -- so the clause assumes nothing */
 #define XC_SET_FRAME xv_errno, xv_set_calls, xv_set_failed, xv_set_name, xv_set_type, xv_set_value, xv_set_len, xv_set_sock, xv_set_rv, xv_set_first_name, \
+                     xv_at_name, xv_at_type, xv_at_value, xv_at_len, xv_at_sock, xv_map_name, xv_map_type, xv_map_value, xv_map_len, \
                      xv_conn_dead, xv_updated, xv_upd_cond, xv_upd_sock
+#define XC_NDEF ((attrs == NULL || !xv_map_has_service) ? 1 : 0)        /* number of default writes: xcm.service unless the map has it */
+#define XC_PARENT_BS (parent_s != NULL && xv_bytestream)
 static int set_attrs(struct xcm_socket *s, struct xcm_socket *parent_s, const struct xcm_attr_map *attrs)
 __CPROVER_requires(__CPROVER_is_fresh(s, sizeof(struct xcm_socket)) && XC_CNT_OK(xv_set_calls))
-__CPROVER_assigns(XC_SET_FRAME, s->is_blocking, s->condition)
+#ifdef XC_ENFORCE_SET_ATTRS
+__CPROVER_requires(xv_set_calls == 0 && !xv_set_failed && xv_map_n >= 0 && xv_map_n < XC_CNT_MAX && (parent_s == NULL || parent_s == xv_sock))
+#endif
+__CPROVER_assigns(XC_SET_FRAME, xv_attrs_sock, xv_attrs_rv, s->is_blocking, s->condition)
 XC_MAY_BLOCK(xv_attrs_req_block)
 __CPROVER_ensures(XC_RV_OR_ERRNO && XC_DEAD_MONO)
+#ifdef XC_ENFORCE_SET_ATTRS
+/* PO[C11] set_attrs.fails_iff_an_attribute_was_refused: (that no attribute is written AFTER a refusal is precondition xcm_attr_set.not_after_a_failure) */
+__CPROVER_ensures(__CPROVER_return_value == -1 ? xv_set_failed : !xv_set_failed)
+/* PO[C11] set_attrs.default_then_every_map_entry: success => one write for the default (if due) and one per map entry, no more */
+__CPROVER_ensures(__CPROVER_return_value == 0 ==> xv_set_calls == XC_NDEF + (attrs == NULL ? 0 : xv_map_n))
+/* PO[C11] set_attrs.default_service_first: write number 0 is xcm.service = the parent's service (messaging without parent), as a string, on this socket */
+__CPROVER_ensures((XC_NDEF == 1 && xv_j == 0) ==> (XC_IS_SERVICE(xv_at_name) && xv_at_type == (int)xcm_attr_type_str && xv_at_sock == s && \
+                  xv_at_len == (XC_PARENT_BS ? 11 : 10) && XC_U8(xv_at_value)[0] == (XC_PARENT_BS ? 'b' : 'm') && XC_U8(xv_at_value)[xv_at_len - 1] == 0))
+/* PO[C11] set_attrs.map_in_order: write number NDEF + i is entry i of the map, verbatim, on this socket (any i: ghost index xv_j) */
+__CPROVER_ensures((__CPROVER_return_value == 0 && attrs != NULL && xv_j >= XC_NDEF && xv_j < XC_NDEF + xv_map_n) ==> \
+                  (xv_at_name == xv_map_name && xv_at_type == xv_map_type && xv_at_value == xv_map_value && xv_at_len == xv_map_len && xv_at_sock == s))
+#endif
 #ifndef XC_ENFORCE_SET_ATTRS
+__CPROVER_ensures(xv_attrs_sock == s && xv_attrs_rv == __CPROVER_return_value)
 __CPROVER_ensures(__CPROVER_return_value == 0 ==> s->is_blocking == xv_mode_after_attrs)
 #endif
 ;
 
 /* ---- socket creation.  A connect is "non-blocking" when its attributes leave the new socket non-blocking
  * (xcm.blocking = false, or the XCM_NONBLOCK flag of xcm_connect, which is that attribute) */
-#define XC_LIFE_FRAME xv_created_sock, xv_inited_sock, xv_connected_sock, xv_accepted_sock, xv_closed_sock, xv_destroyed_sock, xv_destroyed_xpoll, version_logged
+#define XC_LIFE_FRAME xv_attrs_sock, xv_attrs_rv, xv_created_sock, xv_inited_sock, xv_connected_sock, xv_accepted_sock, xv_closed_sock, xv_destroyed_sock, xv_destroyed_xpoll, version_logged
 #if defined(XC_NB)
 #define XC_CONNECT_MODE (!xv_mode_after_attrs && !xv_attrs_req_block)
 #elif defined(XC_BL)
@@ -537,17 +580,25 @@ __CPROVER_ensures(__CPROVER_return_value == 0 ==> s->is_blocking == xv_mode_afte
 #else
 #define XC_CONNECT_MODE 1
 #endif
-#define XC_CONNECT_POST(rv) ((rv) != NULL ==> (__CPROVER_is_fresh((rv), sizeof(struct xcm_socket)) && (rv)->type == xcm_socket_type_conn && \
-                             (rv)->is_blocking == xv_mode_after_attrs && (rv) == xv_created_sock && (rv) == xv_inited_sock && (rv) == xv_connected_sock))
+#define XC_CONNECT_POST(rv) (((rv) != NULL ==> (__CPROVER_is_fresh((rv), sizeof(struct xcm_socket)) && (rv)->type == xcm_socket_type_conn && \
+                             (rv)->is_blocking == xv_mode_after_attrs && (rv) == xv_created_sock && (rv) == xv_inited_sock && (rv) == xv_connected_sock && \
+                             (rv) == xv_attrs_sock && xv_attrs_rv == 0)) && \
+                            (((rv) != NULL && xv_mode_after_attrs) ==> (xv_fin_sock == (rv) && xv_fin_rv == 0)))
+/* a refused attribute aborts the creation: no connect/server/accept proper, the socket is closed and destroyed, NULL is returned */
+#define XC_LIFE_CLEAN (xv_attrs_sock == NULL && xv_created_sock == NULL && xv_connected_sock == NULL && xv_accepted_sock == NULL)  /* call records empty on entry */
+#define XC_ABORTED(rv, proper) ((xv_attrs_sock != NULL && xv_attrs_rv == -1) ==> \
+                            ((rv) == NULL && xv_attrs_sock == xv_created_sock && (proper) == NULL && xv_closed_sock == xv_created_sock && xv_destroyed_sock == xv_created_sock))
 struct xcm_socket *xcm_connect_a(const char *remote_addr, const struct xcm_attr_map *attrs)
-__CPROVER_requires(XC_CONNECT_MODE && !xv_poll_failed && XC_CNT_OK(xv_set_calls))
+__CPROVER_requires(XC_CONNECT_MODE && !xv_poll_failed && XC_CNT_OK(xv_set_calls) && XC_LIFE_CLEAN)
 __CPROVER_assigns(XC_LIFE_FRAME, XC_SET_FRAME, XC_FIN_FRAME, xv_fd_ret, xv_poll_failed)
 XC_MAY_BLOCK(xv_mode_after_attrs || xv_attrs_req_block)
 __CPROVER_ensures(XC_CONNECT_POST(__CPROVER_return_value))
 __CPROVER_ensures(__CPROVER_return_value == NULL ==> (xv_created_sock == __CPROVER_old(xv_created_sock) || xv_destroyed_sock == xv_created_sock))
+/* PO[C11] xcm_connect_a.creation_aborted_on_attribute_failure */
+__CPROVER_ensures(XC_ABORTED(__CPROVER_return_value, xv_connected_sock))
 ;
 struct xcm_socket *xcm_connect(const char *remote_addr, int flags)
-__CPROVER_requires(XC_CONNECT_MODE && !xv_poll_failed && XC_CNT_OK(xv_set_calls))
+__CPROVER_requires(XC_CONNECT_MODE && !xv_poll_failed && XC_CNT_OK(xv_set_calls) && XC_LIFE_CLEAN)
 #if defined(XC_NB)
 __CPROVER_requires((flags & XCM_NONBLOCK) != 0)
 #endif
@@ -555,21 +606,41 @@ __CPROVER_assigns(XC_LIFE_FRAME, XC_SET_FRAME, XC_FIN_FRAME, xv_fd_ret, xv_poll_
 XC_MAY_BLOCK(xv_mode_after_attrs || xv_attrs_req_block)
 __CPROVER_ensures(XC_CONNECT_POST(__CPROVER_return_value))
 ;
+/* ---- server sockets: no mode yet (created blocking); nothing waits at this layer unless an attribute asks for blocking mode on a non-blocking socket */
+#define XC_SERVER_POST(rv) ((rv) != NULL ==> (__CPROVER_is_fresh((rv), sizeof(struct xcm_socket)) && (rv)->type == xcm_socket_type_server && \
+                            (rv) == xv_created_sock && (rv) == xv_inited_sock && (rv) == xv_connected_sock && (rv) == xv_attrs_sock && xv_attrs_rv == 0))
+struct xcm_socket *xcm_server_a(const char *local_addr, const struct xcm_attr_map *attrs)
+__CPROVER_requires(XC_CONNECT_MODE && XC_CNT_OK(xv_set_calls) && XC_LIFE_CLEAN)
+__CPROVER_assigns(XC_LIFE_FRAME, XC_SET_FRAME)
+XC_MAY_BLOCK(xv_attrs_req_block)
+__CPROVER_ensures(XC_SERVER_POST(__CPROVER_return_value))
+/* PO[C11] xcm_server_a.creation_aborted_on_attribute_failure */
+__CPROVER_ensures(XC_ABORTED(__CPROVER_return_value, xv_connected_sock))
+;
+struct xcm_socket *xcm_server(const char *local_addr)
+__CPROVER_requires(XC_CONNECT_MODE && XC_CNT_OK(xv_set_calls) && XC_LIFE_CLEAN)
+__CPROVER_assigns(XC_LIFE_FRAME, XC_SET_FRAME)
+XC_MAY_BLOCK(xv_attrs_req_block)
+__CPROVER_ensures(XC_SERVER_POST(__CPROVER_return_value))
+;
+
 /* ---- accept: the SERVER socket's mode governs the waits */
 #define XC_ACCEPT_POST(rv) (((rv) != NULL ==> (__CPROVER_is_fresh((rv), sizeof(struct xcm_socket)) && (rv)->type == xcm_socket_type_conn && \
                              (rv) == xv_created_sock && (rv) == xv_inited_sock && (rv) == xv_accepted_sock)) && \
                             (server_s->type != xcm_socket_type_server ==> ((rv) == NULL && xv_errno == EINVAL)))
 struct xcm_socket *xcm_accept_a(struct xcm_socket *server_s, const struct xcm_attr_map *attrs)
-__CPROVER_requires(XC_SOCK(server_s) && XC_MODE(server_s) && !xv_poll_failed && XC_CNT_OK(xv_set_calls))
+__CPROVER_requires(XC_SOCK(server_s) && XC_MODE(server_s) && !xv_poll_failed && XC_CNT_OK(xv_set_calls) && XC_LIFE_CLEAN)
 #if defined(XC_NB)
 __CPROVER_requires(!xv_attrs_req_block)
 #endif
 __CPROVER_assigns(XC_LIFE_FRAME, XC_SET_FRAME, XC_FIN_FRAME, xv_fd_ret, XC_WAIT_FRAME(server_s))
 XC_MAY_BLOCK(server_s->is_blocking || xv_attrs_req_block)
 __CPROVER_ensures(XC_ACCEPT_POST(__CPROVER_return_value))
+/* PO[C11] xcm_accept_a.creation_aborted_on_attribute_failure */
+__CPROVER_ensures(XC_ABORTED(__CPROVER_return_value, xv_accepted_sock))
 ;
 struct xcm_socket *xcm_accept(struct xcm_socket *server_s)
-__CPROVER_requires(XC_SOCK(server_s) && XC_MODE(server_s) && !xv_poll_failed && XC_CNT_OK(xv_set_calls))
+__CPROVER_requires(XC_SOCK(server_s) && XC_MODE(server_s) && !xv_poll_failed && XC_CNT_OK(xv_set_calls) && XC_LIFE_CLEAN)
 #if defined(XC_NB)
 __CPROVER_requires(!xv_attrs_req_block)
 #endif
@@ -593,8 +664,9 @@ __CPROVER_requires(__CPROVER_is_fresh(s, sizeof(struct xcm_socket)) && XC_ATTR_S
 __CPROVER_requires(!xv_set_failed)
 __CPROVER_assigns(XC_ATTR_SET_FRAME(s))
 XC_MAY_BLOCK(xv_attrs_req_block)
-__CPROVER_ensures(XC_ATTR_SET_POST(s, name, type) && xv_set_value == value && xv_set_len == len)
+__CPROVER_ensures(XC_ATTR_SET_POST(s, name, type) && xv_set_value == value && xv_set_len == len && XC_DEAD_MONO)
 __CPROVER_ensures(xv_set_failed == (__CPROVER_return_value == -1))
+__CPROVER_ensures(XC_AT_RECORD(name, type, value, len, s))
 __CPROVER_ensures(xv_set_first_name == (__CPROVER_old(xv_set_calls) == 0 ? name : __CPROVER_old(xv_set_first_name)))
 ;
 int xcm_attr_set_bool(struct xcm_socket *s, const char *name, bool value)
